@@ -21,8 +21,8 @@ from ginsim.props import c18, c19
 
 ID = 'C06'
 LEVEL = 'exploration'
-QUICK_RUNS = 2500
-THOROUGH_RUNS = 50000
+QUICK_RUNS = 6000
+THOROUGH_RUNS = 150000
 SHRINK_BUDGET = 250
 RULE = ('run i draws from Random("<seed>/C06/<i>") a set of 2-14 bindings with '
         'unique keys over probes whose dotted names collide (so minimal '
